@@ -10,6 +10,7 @@ __all__ = [
 from abc import abstractmethod
 from enum import Enum
 import itertools
+import numpy as np
 from numpy import ndarray
 from pandas import DataFrame, Series
 from pyrepseq.metric.tcr_metric import TcrMetric
@@ -137,6 +138,9 @@ class TcrLevenshtein(TcrMetric):
         anchors = anchors[column]
         comparisons = comparisons[column]
         cdist = process.cdist(anchors, comparisons, scorer=self._scorer, workers=-1)
+        # rapidfuzz returns float32 (weighted scorer) or uint32 (native scorer): widen before multiplying by the
+        # chain / CDR weights, so that large weights neither lose precision nor wrap around
+        cdist = cdist.astype(np.float64 if cdist.dtype.kind == "f" else np.int64)
 
         if "A" in column:
             cdist *= self._chain_weights.alpha_weight
